@@ -406,7 +406,7 @@ fn exec_inner<'a, 's: 'a>(
                 Err(r) => out.push(r),
             }
         }
-        Op::ReplaceAllWith { q, table, stop_after, nested } => {
+        Op::ReplaceAllWith { q, table, stop_after, nested, panic_at } => {
             hay_prepare(bufs, &q.hay);
             let bufs: &'a [Vec<u8>] = bufs;
             let t = match sut(env, over, q.s) {
@@ -421,6 +421,9 @@ fn exec_inner<'a, 's: 'a>(
             let mut side: Vec<R> = Vec::new();
             let nested_hay = nested.and_then(|h| env.fixed.get(h));
             let r = t.replace_all_with(hay, |m, bytes, dst| {
+                if *panic_at == Some(calls) {
+                    panic!("{}", PANIC_MARK);
+                }
                 side.push(rm(*m));
                 side.push(R::Bool(bytes == &hay[m.start()..m.end()]));
                 if let Some(nh) = nested_hay {
